@@ -169,45 +169,41 @@ mod proofs {
     }
   }
 
-  /// C14-1: the id list of a suppression comment
-  #[kani::proof]
-  #[kani::unwind(27)]
-  fn c14_suppress_set_parse() {
-    // concrete prefix, symbolic tail
-    let mut text = [0u8; 25];
+  /// C14-1: the id list of a suppression comment; the tail length is concrete per call
+  /// (loop in the harness), its bytes symbolic
+  fn suppress_parse(tlen: usize) {
+    let mut text = [b' '; 24];
     let prefix = b"// ast-grep-ignore";
     let mut i = 0;
     while i < prefix.len() {
       text[i] = prefix[i];
       i += 1;
     }
-    let (tail, tlen) = any_bytes::<7, 5>(b"ab:, ");
-    let mut i = 0;
-    while i < 7 {
-      text[prefix.len() + i] = tail[i];
-      i += 1;
-    }
-    let len = prefix.len() + tlen;
-    let s = as_str(&text, len);
-    let got = parse_suppression_set(s);
-    let mut out = [(0usize, 0usize); 4];
-    // at most 4 ids fit in 7 bytes only if ... "a,b,a,b" = 4 ids
     let mut commas = 0;
     let mut i = 0;
-    while i < 7 {
-      if i < tlen && tail[i] == b',' {
-        commas += 1;
+    while i < 5 {
+      if i < tlen {
+        let c = any_of(b"ab:, ");
+        text[prefix.len() + i] = c;
+        if c == b',' {
+          commas += 1;
+        }
       }
       i += 1;
     }
     kani::assume(commas <= 3);
+    let len = prefix.len() + tlen;
+    let s = as_str(&text, len);
+    let got = parse_suppression_set(s);
+    let mut out = [(0usize, 0usize); 4];
     let want = spec_suppress(&text[..len], &mut out);
-    kani::cover!(matches!(want, Some(2)));
-    kani::cover!(want.is_none() && tlen > 0);
+    if tlen == 5 {
+      kani::cover!(matches!(want, Some(2)));
+      kani::cover!(want.is_none());
+    }
     match (got, want) {
       (None, None) => {}
       (Some(ids), Some(n)) => {
-        // same set of ids (the implementation stores a set: duplicates collapse)
         let mut k = 0;
         while k < n {
           let (a, b) = out[k];
@@ -226,10 +222,27 @@ mod proofs {
           }
           assert!(found);
         }
+        std::mem::forget(ids);
       }
       _ => panic!("all-vs-listed disagrees"),
     }
   }
+
+  macro_rules! suppress_harness {
+    ($name:ident, $t:expr) => {
+      #[kani::proof]
+      #[kani::unwind(26)]
+      fn $name() {
+        suppress_parse($t);
+      }
+    };
+  }
+  suppress_harness!(c14_suppress_set_parse_t0, 0);
+  suppress_harness!(c14_suppress_set_parse_t1, 1);
+  suppress_harness!(c14_suppress_set_parse_t2, 2);
+  suppress_harness!(c14_suppress_set_parse_t3, 3);
+  suppress_harness!(c14_suppress_set_parse_t4, 4);
+  suppress_harness!(c14_suppress_set_parse_t5, 5);
 }
 
 /// C11 / C07-4 `string_case_split_total`: the word splitter behind `convert` never slices
@@ -239,31 +252,31 @@ mod proofs_case {
   use crate::common::*;
   use ast_grep_config::verif_hooks::string_case::split_default;
 
-  /// symbolic text of <= NCH chars over {a, A, _, É (2 bytes)}
-  fn any_text<const NCH: usize, const NB: usize>() -> ([u8; NB], usize) {
-    let mut buf = [0u8; NB];
-    let n: usize = kani::any();
-    kani::assume(n <= NCH);
-    let mut len = 0;
+  /// text of exactly `len` bytes (concrete), bytes symbolic over {a, A, _, 0xC3, 0x89}
+  /// restricted to valid UTF-8 (É = C3 89, an upper-case 2-byte char)
+  fn check_len(len: usize) {
+    let mut buf = [b'a'; 8];
     let mut i = 0;
-    while i < NCH {
-      if i < n {
+    while i < 8 {
+      if i < len {
         let c: u8 = kani::any();
-        kani::assume(c < 4);
-        match c {
-          0 => { buf[len] = b'a'; len += 1; }
-          1 => { buf[len] = b'A'; len += 1; }
-          2 => { buf[len] = b'_'; len += 1; }
-          _ => { buf[len] = 0xC3; buf[len + 1] = 0x89; len += 2; }
+        kani::assume(c == b'a' || c == b'A' || c == b'_' || c == 0xC3 || c == 0x89);
+        buf[i] = c;
+      }
+      i += 1;
+    }
+    let mut i = 0;
+    while i < 8 {
+      if i < len {
+        if buf[i] == 0xC3 {
+          kani::assume(i + 1 < len && buf[i + 1] == 0x89);
+        }
+        if buf[i] == 0x89 {
+          kani::assume(i >= 1 && buf[i - 1] == 0xC3);
         }
       }
       i += 1;
     }
-    (buf, len)
-  }
-
-  fn check<const NCH: usize, const NB: usize>() {
-    let (buf, len) = any_text::<NCH, NB>();
     let s = as_str(&buf, len);
     let pieces = split_default(s);
     // pieces are sub-slices of `s`, in order, non-overlapping, non-empty, on char boundaries
@@ -279,13 +292,23 @@ mod proofs_case {
       prev_end = end;
       i += 1;
     }
-    kani::cover!(pieces.len() >= 2);
-    kani::cover!(pieces.len() == 1 && len >= 4);
+    if len >= 4 {
+      kani::cover!(pieces.len() >= 2);
+      kani::cover!(pieces.len() == 1);
+    }
     std::mem::forget(pieces);
   }
 
+  fn check<const NCH: usize, const NB: usize>() {
+    let mut len = 0;
+    while len <= NCH {
+      check_len(len);
+      len += 1;
+    }
+  }
+
   #[kani::proof]
-  #[kani::unwind(8)]
+  #[kani::unwind(10)]
   fn c11_string_case_split_4ch() {
     check::<4, 8>();
   }
